@@ -262,10 +262,11 @@ class BPMEvent(Event):
                 ``line``.
         """
 
-        bpm_whole_part_str, bpm_decimal_part_str = data.raw_bpm[:-3], data.raw_bpm[-3:]
-        bpm_whole_part = int(bpm_whole_part_str) if bpm_whole_part_str != "" else 0
-        bpm_decimal_part = int(bpm_decimal_part_str) / 1000
-        bpm = bpm_whole_part + bpm_decimal_part
+        # The raw value is the tempo in thousandths of a BPM. A single correctly rounded division
+        # yields the float nearest to the written value; adding a whole part to a separately
+        # computed decimal part does not (1 + 0.118 == 1.1179999999999999), which made the
+        # three-decimal validation in __post_init__ reject valid lines such as "0 = B 1118".
+        bpm = int(data.raw_bpm) / 1000
 
         if prev_event is None:
             timestamp, proximal_bpm_event_index = Timestamp(timedelta(0)), 0
